@@ -171,7 +171,7 @@ Fixpoint walk (fuel : nat) (f : fs) (hops : nat) (cur : key) (cs : list str)
 Definition resolve (f : fs) (p : str) (follow : bool) : wres :=
   match p with
   | [] => WErr ENOENT
-  | _ => walk walk_fuel f 0 [] (split_sep p) follow
+  | _ => walk (walk_fuel + length p) f 0 [] (split_sep p) follow
   end.
 
 (** * What [Lstat]/[Stat] report *)
